@@ -2,6 +2,7 @@ package rules
 
 import (
 	"go/token"
+	"go/types"
 	"strings"
 
 	"golang.org/x/tools/go/ssa"
@@ -56,11 +57,62 @@ func contextDroppingWrappers(p *core.Prog) map[*ssa.Function]*ssa.Function {
 	return out
 }
 
+// emptyHaystackSearchers: functions of the module without a []byte parameter that hand a module function a
+// haystack that is empty by construction ([]byte{} or a nil constant): "does the pattern match the empty input".
+// Clause (b) of R-CTXDROP treats them like the nil/0 wrappers.
+func emptyHaystackSearchers(p *core.Prog) map[*ssa.Function]*ssa.Function {
+	out := map[*ssa.Function]*ssa.Function{}
+	for _, fn := range p.SrcFuncs() {
+		if strings.HasSuffix(p.File(fn.Pos()), "_test.go") || !p.InModule(ownPkg(fn)) || fn.Signature.Recv() == nil {
+			continue
+		}
+		if r := fn.Signature.Results(); r.Len() != 1 || !isBoolType(r.At(0).Type()) {
+			continue
+		}
+		hasBytes := false
+		for _, prm := range fn.Params {
+			if isByteSlice(prm.Type()) {
+				hasBytes = true
+			}
+		}
+		if hasBytes {
+			continue
+		}
+		for _, b := range fn.Blocks {
+			for _, in := range b.Instrs {
+				call, ok := in.(*ssa.Call)
+				if !ok {
+					continue
+				}
+				g := call.Call.StaticCallee()
+				if g == nil || len(g.Blocks) == 0 || !p.InModule(ownPkg(g)) {
+					continue
+				}
+				for _, a := range call.Call.Args {
+					if !isByteSlice(a.Type()) {
+						continue
+					}
+					if sl, ok := a.(*ssa.Slice); ok && sl.Low == nil && sl.High == nil {
+						if al, ok := sl.X.(*ssa.Alloc); ok {
+							if pt, ok := al.Type().Underlying().(*types.Pointer); ok {
+								if arr, ok := pt.Elem().Underlying().(*types.Array); ok && arr.Len() == 0 {
+									out[fn] = g
+								}
+							}
+						}
+					}
+				}
+			}
+		}
+	}
+	return out
+}
+
 func init() {
 	core.Register(&core.Rule{
 		Name: "R-CTXDROP",
-		Doc: "A position-dependent question is not answered for offset 0 of an empty input. A wrapper whose whole body forwards nil and 0 to a sibling taking (haystack []byte, pos int) (matchesEmpty() = matchesEmptyAt(nil, 0)) evaluates look-around assertions with nothing before and nothing after the position. A function that has a haystack in scope may call it only where the haystack is known to be empty (dominated by the true edge of len(haystack) == 0): at the end of a non-empty haystack, whether \\b, \\B, (?m)^ or $ hold depends on the bytes before the position, and the sibling must be called with them. Necessary for C04 (the match sequence of a resumed search: FindAllSubmatch of \\b on \"a\" loses [1 1]) and C02.",
-		Min: 3, NeedSSA: true,
+		Doc: "A position-dependent question is not answered for offset 0 of an empty input. A wrapper whose whole body forwards nil and 0 to a sibling taking (haystack []byte, pos int) (matchesEmpty() = matchesEmptyAt(nil, 0)) evaluates look-around assertions with nothing before and nothing after the position. A function that has a haystack in scope may call it only where the haystack is known to be empty (dominated by the true edge of len(haystack) == 0): at the end of a non-empty haystack, whether \\b, \\B, (?m)^ or $ hold depends on the bytes before the position, and the sibling must be called with them. Necessary for C04 (the match sequence of a resumed search: FindAllSubmatch of \\b on \"a\" loses [1 1]) and C02. Clause (b): the same for a helper without a haystack parameter that hands a module search function a haystack empty by construction ([]byte{}): lazy.(*DFA).matchesEmpty, which five entry points of the lazy DFA asked at the end of a non-empty haystack before fix 6e116d7 (C14).",
+		Min: 6, NeedSSA: true,
 		Run: func(p *core.Prog) *core.RuleResult {
 			res := &core.RuleResult{}
 			kc := core.NewKeyCounter()
@@ -70,6 +122,14 @@ func init() {
 				names = append(names, core.FuncName(w)+" -> "+core.FuncName(g))
 			}
 			res.Notes = append(res.Notes, "context-dropping wrappers (computed): "+strings.Join(sortedStrs(names), ", "))
+			var names2 []string
+			for w, g := range emptyHaystackSearchers(p) {
+				if wr[w] == nil {
+					wr[w] = g
+					names2 = append(names2, core.FuncName(w)+" -> "+core.FuncName(g)+"([]byte{})")
+				}
+			}
+			res.Notes = append(res.Notes, "clause (b), helpers that search a haystack empty by construction (computed): "+strings.Join(sortedStrs(names2), ", "))
 			for _, fn := range p.SrcFuncs() {
 				if strings.HasSuffix(p.File(fn.Pos()), "_test.go") || !p.InModule(ownPkg(fn)) {
 					continue
